@@ -13,6 +13,27 @@ from common import BUILD, Infra, Run, main_guard, parse_sx, sx, time_limit
 warnings.filterwarnings("ignore")
 
 
+class RetryDriver:
+    """the compiled Lean driver; restarted once if the pipe breaks (a loaded machine can kill the child)"""
+
+    def __init__(self, run):
+        self.run = run
+        self.d = run.driver()
+
+    def _retry(self, f):
+        try:
+            return f(self.d)
+        except (BrokenPipeError, Infra, OSError):
+            self.d = self.run.driver()
+            return f(self.d)
+
+    def ask(self, line):
+        return self._retry(lambda d: d.ask(line))
+
+    def ask_many(self, lines):
+        return self._retry(lambda d: d.ask_many(lines))
+
+
 def regen(run):
     import c05_gen
     import gen_tables
@@ -222,7 +243,7 @@ def main():
     ]
     info = regen(run)
     run.build_and_audit(["TdVerif.Props.C05"])
-    drv = run.driver()
+    drv = RetryDriver(run)
     import tensordict  # noqa: F401
     import tensordict.nn  # noqa: F401
     gc.collect()
@@ -232,7 +253,7 @@ def main():
         thorough = run.tier == "thorough"
         corpus(run, drv, scratch)
         witnesses(run, drv)
-        histories(run, drv, 4000 if thorough else 500, 32 if thorough else 26, scratch)
+        histories(run, drv, 4000 if thorough else 300, 32 if thorough else 26, scratch)
         import c05_sweep_run
         c05_sweep_run.sweep(run, drv, info, scratch, thorough)
     finally:
